@@ -737,7 +737,53 @@ fn pick_targets(r: &mut Rng, doc: &Document, leaves: &[ObjectId]) -> Vec<ObjectI
     t
 }
 
+/// EVERY byte of EVERY predefined one-byte encoding, one at a time and all together, through `get_font_encoding` +
+/// `Document::decode_text` and through `extract_text` of a one-page document: a value or an error, never a panic
+/// (one wrong entry of a 256-entry table — a lone surrogate — is reached by one byte of one encoding only).
+pub fn encoding_sweep(c: &mut Ctx) {
+    use lopdf::content::{Content, Operation};
+    for (ei, enc) in ["StandardEncoding", "MacRomanEncoding", "MacExpertEncoding", "WinAnsiEncoding", "PDFDocEncoding"].iter().enumerate() {
+        let Some(_r) = c.case("encoding-sweep", ei as u64) else { continue };
+        let mut font = Dictionary::new();
+        font.set("Type", Object::Name(b"Font".to_vec())); font.set("Subtype", Object::Name(b"Type1".to_vec()));
+        font.set("BaseFont", Object::Name(b"Helvetica".to_vec())); font.set("Encoding", Object::Name(enc.as_bytes().to_vec()));
+        let build = |bytes: &[u8]| -> Document {
+            let mut doc = Document::with_version("1.5");
+            let fid = doc.add_object(Object::Dictionary(font.clone()));
+            let mut fonts = Dictionary::new(); fonts.set("F1", Object::Reference(fid));
+            let mut res = Dictionary::new(); res.set("Font", Object::Dictionary(fonts));
+            let content = Content { operations: vec![Operation::new("BT", vec![]), Operation::new("Tf", vec![Object::Name(b"F1".to_vec()), Object::Integer(12)]),
+                Operation::new("Tj", vec![Object::String(bytes.to_vec(), StringFormat::Hexadecimal)]), Operation::new("ET", vec![])] };
+            let cid = doc.add_object(Object::Stream(Stream::new(Dictionary::new(), content.encode().unwrap_or_default())));
+            let pages_id = doc.new_object_id();
+            let mut page = Dictionary::new(); page.set("Type", Object::Name(b"Page".to_vec())); page.set("Parent", Object::Reference(pages_id));
+            page.set("Contents", Object::Reference(cid)); page.set("Resources", Object::Dictionary(res));
+            let pid = doc.add_object(Object::Dictionary(page));
+            let mut pages = Dictionary::new(); pages.set("Type", Object::Name(b"Pages".to_vec())); pages.set("Count", Object::Integer(1)); pages.set("Kids", Object::Array(vec![Object::Reference(pid)]));
+            doc.objects.insert(pages_id, Object::Dictionary(pages));
+            let mut cat = Dictionary::new(); cat.set("Type", Object::Name(b"Catalog".to_vec())); cat.set("Pages", Object::Reference(pages_id));
+            let cat_id = doc.add_object(Object::Dictionary(cat)); doc.trailer.set("Root", Object::Reference(cat_id));
+            doc
+        };
+        let all: Vec<u8> = (0..=255u8).collect();
+        let mut inputs: Vec<Vec<u8>> = (0..=255u8).map(|b| vec![b]).collect(); inputs.push(all);
+        for bytes in inputs {
+            let doc = build(&bytes);
+            c.count("encoding_sweep.inputs");
+            match guard(|| font.get_font_encoding(&doc).map(|e| Document::decode_text(&e, &bytes))) {
+                Ok(_) => {}
+                Err((site, msg)) => { c.oracle_fail(&format!("panic@{}", site), &format!("decode_text with {} panics: {}", enc, msg.chars().take(100).collect::<String>()), json!({"encoding": enc, "bytes": hex(&bytes)})); }
+            }
+            match guard(|| doc.extract_text(&[1])) {
+                Ok(_) => {}
+                Err((site, msg)) => { c.oracle_fail(&format!("panic@{}", site), &format!("extract_text of a page shown in {} panics: {}", enc, msg.chars().take(100).collect::<String>()), json!({"encoding": enc, "bytes": hex(&bytes)})); }
+            }
+        }
+    }
+}
+
 pub fn run(c: &mut Ctx) {
+    encoding_sweep(c);
     c.rule = "documents = well-formed generator output (page tree, Contents direct/array/chained, Resources direct/by reference/inherited, \
 fonts with every Encoding branch, image XObjects, Annots, outlines with Dest/A/named destinations, name trees, Encrypt/CF) with 0-12 typed-chaos \
 mutations (a key the queries read re-bound to a value of a random kind or to a reference, possibly forming cycles); every query runs on the real \
